@@ -57,6 +57,146 @@ Proof. destruct a as [[[a1 a2] a3] a4], b as [[[b1 b2] b3] b4]. unfold inE, inb,
 Lemma array_extent_valid n m r c : 0 < n -> 0 < m -> evalid (array_extent n m r c).
 Proof. unfold evalid, array_extent. lia. Qed.
 
+(* ------------------------------------------------------------------ util.boundary of the mask *)
+Lemma any_upto_spec n p : any_upto n p = true <-> exists k, 0 <= k < Z.of_nat n /\ p k = true.
+Proof.
+  induction n as [|n IH]; cbn [any_upto].
+  - split; [discriminate|]. intros (k & Hk & _). lia.
+  - rewrite orb_true_iff, IH. split.
+    + intros [(k & Hk & Hp)|Hp]; [exists k; split; [lia|exact Hp]|exists (Z.of_nat n); split; [lia|exact Hp]].
+    + intros (k & Hk & Hp). destruct (Z.eq_dec k (Z.of_nat n)) as [->|Hne]; [now right|].
+      left. exists k. split; [lia|exact Hp].
+Qed.
+Lemma anyZ_spec n p : anyZ n p = true <-> exists k, 0 <= k < n /\ p k = true.
+Proof. unfold anyZ. rewrite any_upto_spec. split; intros (k & Hk & Hp); exists k; split; try assumption; lia. Qed.
+
+Lemma first_from_some fuel : forall i p k, first_from fuel i p = Some k ->
+  i <= k < i + Z.of_nat fuel /\ p k = true /\ forall j, i <= j < k -> p j = false.
+Proof.
+  induction fuel as [|fuel IH]; intros i p k; cbn [first_from]; [discriminate|].
+  destruct (p i) eqn:E.
+  - intros H. injection H as <-. repeat split; try lia. exact E.
+  - intros H. apply IH in H. destruct H as (H1 & H2 & H3). repeat split; try lia; try assumption.
+    intros j Hj. destruct (Z.eq_dec j i) as [->|Hne]; [exact E|]. apply H3. lia.
+Qed.
+Lemma first_from_none fuel : forall i p, first_from fuel i p = None ->
+  forall j, i <= j < i + Z.of_nat fuel -> p j = false.
+Proof.
+  induction fuel as [|fuel IH]; intros i p; cbn [first_from]; [intros; lia|].
+  destruct (p i) eqn:E; [discriminate|]. intros H j Hj.
+  destruct (Z.eq_dec j i) as [->|Hne]; [exact E|]. apply (IH _ _ H). lia.
+Qed.
+Lemma last_upto_some n : forall p k, last_upto n p = Some k ->
+  0 <= k < Z.of_nat n /\ p k = true /\ forall j, k < j < Z.of_nat n -> p j = false.
+Proof.
+  induction n as [|n IH]; intros p k; cbn [last_upto]; [discriminate|].
+  destruct (p (Z.of_nat n)) eqn:E.
+  - intros H. injection H as <-. repeat split; try lia. exact E.
+  - intros H. apply IH in H. destruct H as (H1 & H2 & H3). repeat split; try lia; try assumption.
+    intros j Hj. destruct (Z.eq_dec j (Z.of_nat n)) as [->|Hne]; [exact E|]. apply H3. lia.
+Qed.
+Lemma last_upto_none n : forall p, last_upto n p = None -> forall j, 0 <= j < Z.of_nat n -> p j = false.
+Proof.
+  induction n as [|n IH]; intros p; cbn [last_upto]; [intros; lia|].
+  destruct (p (Z.of_nat n)) eqn:E; [discriminate|]. intros H j Hj.
+  destruct (Z.eq_dec j (Z.of_nat n)) as [->|Hne]; [exact E|]. apply (IH _ H). lia.
+Qed.
+
+(* first and last selected index of a vector of length n *)
+Lemma first_last_spec n p a b : first_true n p = Some a -> last_true n p = Some b ->
+  0 <= a /\ a <= b /\ b < n /\ p a = true /\ p b = true /\ forall k, 0 <= k < n -> p k = true -> a <= k <= b.
+Proof.
+  unfold first_true, last_true. intros Ha Hb.
+  apply first_from_some in Ha. apply last_upto_some in Hb.
+  destruct Ha as (A1 & A2 & A3), Hb as (B1 & B2 & B3).
+  assert (a <= b).
+  { destruct (Z_le_gt_dec a b); [assumption|]. rewrite B3 in A2 by lia. discriminate. }
+  repeat split; try lia; try assumption.
+  - destruct (Z_le_gt_dec a k); [assumption|]. rewrite A3 in H1 by lia. discriminate.
+  - destruct (Z_le_gt_dec k b); [assumption|]. rewrite B3 in H1 by lia. discriminate.
+Qed.
+
+(* util.boundary returns the bounding box of the samples with mask > 0: it contains every such
+   sample and each of its four sides touches one *)
+Theorem mask_boundary_spec m rmin rmax cmin cmax : mask_boundary m = Ok (rmin, rmax, cmin, cmax) ->
+  0 <= rmin /\ rmin <= rmax /\ rmax < mnr m /\ 0 <= cmin /\ cmin <= cmax /\ cmax < mnc m /\
+  (forall i j, 0 <= i < mnr m -> 0 <= j < mnc m -> mget m i j = true -> rmin <= i <= rmax /\ cmin <= j <= cmax) /\
+  (exists j, 0 <= j < mnc m /\ mget m rmin j = true) /\ (exists j, 0 <= j < mnc m /\ mget m rmax j = true) /\
+  (exists i, 0 <= i < mnr m /\ mget m i cmin = true) /\ (exists i, 0 <= i < mnr m /\ mget m i cmax = true).
+Proof.
+  unfold mask_boundary.
+  set (rows := fun i => anyZ (mnc m) (fun j => mget m i j)).
+  set (cols := fun j => anyZ (mnr m) (fun i => mget m i j)).
+  destruct (first_true (mnr m) rows) as [a|] eqn:E1; [|discriminate].
+  destruct (last_true (mnr m) rows) as [b|] eqn:E2; [|discriminate].
+  destruct (first_true (mnc m) cols) as [c|] eqn:E3; [|discriminate].
+  destruct (last_true (mnc m) cols) as [d|] eqn:E4; [|discriminate].
+  intros H. injection H as <- <- <- <-.
+  destruct (first_last_spec _ _ _ _ E1 E2) as (R1 & R2 & R3 & R4 & R5 & R6).
+  destruct (first_last_spec _ _ _ _ E3 E4) as (C1 & C2 & C3 & C4 & C5 & C6).
+  repeat split; try assumption.
+  - apply R6; [lia|]. unfold rows. apply anyZ_spec. exists j. split; [lia|assumption].
+  - apply R6; [lia|]. unfold rows. apply anyZ_spec. exists j. split; [lia|assumption].
+  - apply C6; [lia|]. unfold cols. apply anyZ_spec. exists i. split; [lia|assumption].
+  - apply C6; [lia|]. unfold cols. apply anyZ_spec. exists i. split; [lia|assumption].
+  - unfold rows in R4. now apply anyZ_spec in R4.
+  - unfold rows in R5. now apply anyZ_spec in R5.
+  - unfold cols in C4. now apply anyZ_spec in C4.
+  - unfold cols in C5. now apply anyZ_spec in C5.
+Qed.
+
+(* an all-zero (or empty) mask is refused with IndexError *)
+Theorem mask_boundary_empty m e : mask_boundary m = Err e ->
+  e = IndexError /\ forall i j, 0 <= i < mnr m -> 0 <= j < mnc m -> mget m i j = false.
+Proof.
+  unfold mask_boundary.
+  set (rows := fun i => anyZ (mnc m) (fun j => mget m i j)).
+  set (cols := fun j => anyZ (mnr m) (fun i => mget m i j)).
+  assert (Hrows : (forall i, 0 <= i < mnr m -> rows i = false) ->
+                  forall i j, 0 <= i < mnr m -> 0 <= j < mnc m -> mget m i j = false).
+  { intros H i j Hi Hj. destruct (mget m i j) eqn:E; [|reflexivity].
+    assert (rows i = true) by (unfold rows; apply anyZ_spec; exists j; split; [lia|exact E]).
+    rewrite H in H0 by lia. discriminate. }
+  assert (Hcols : (forall j, 0 <= j < mnc m -> cols j = false) ->
+                  forall i j, 0 <= i < mnr m -> 0 <= j < mnc m -> mget m i j = false).
+  { intros H i j Hi Hj. destruct (mget m i j) eqn:E; [|reflexivity].
+    assert (cols j = true) by (unfold cols; apply anyZ_spec; exists i; split; [lia|exact E]).
+    rewrite H in H0 by lia. discriminate. }
+  destruct (first_true (mnr m) rows) as [a|] eqn:E1.
+  2:{ intros H. split; [congruence|]. apply Hrows. intros i Hi.
+      apply (first_from_none _ _ _ E1). lia. }
+  destruct (last_true (mnr m) rows) as [b|] eqn:E2.
+  2:{ intros H. split; [congruence|]. apply Hrows. intros i Hi.
+      apply (last_upto_none _ _ E2). lia. }
+  destruct (first_true (mnc m) cols) as [c|] eqn:E3.
+  2:{ intros H. split; [congruence|]. apply Hcols. intros j Hj.
+      apply (first_from_none _ _ _ E3). lia. }
+  destruct (last_true (mnc m) cols) as [d|] eqn:E4.
+  2:{ intros H. split; [congruence|]. apply Hcols. intros j Hj.
+      apply (last_upto_none _ _ E4). lia. }
+  discriminate.
+Qed.
+
+(* the output window in plane coordinates = the bounding box in array indices *)
+Lemma out_extent_spec Ro Co mask b : 0 < Ro -> 0 < Co ->
+  (forall m, mask = Some m -> mnr m = Ro /\ mnc m = Co) ->
+  mask_bbox mask Ro Co = Ok b ->
+  exists oe, out_extent Ro Co mask = Ok oe /\ evalid oe /\
+    forall i j, inE oe (i - Ro / 2) (j - Co / 2) = inE b i j.
+Proof.
+  intros HR HC Hm Hb. destruct mask as [m|]; cbn [mask_bbox out_extent] in *.
+  - destruct (Hm m eq_refl) as [E1 E2]. rewrite E1, E2, !Z.eqb_refl. cbn [negb andb].
+    rewrite Hb. cbn [rbind]. destruct b as [[[rmin rmax] cmin] cmax].
+    destruct (mask_boundary_spec _ _ _ _ _ Hb) as (A1 & A2 & A3 & A4 & A5 & A6 & _).
+    unfold mask_shape, mask_shift.
+    eexists; split; [reflexivity|]. split.
+    + unfold evalid, array_extent. lia.
+    + intros i j. unfold inE, array_extent, inb. lia.
+  - injection Hb as <-. eexists; split; [reflexivity|]. split.
+    + apply array_extent_valid; assumption.
+    + intros i j. unfold inE, array_extent, inb. lia.
+Qed.
+
 Section PropagateP.
 Variable S : Scalar.
 Hypothesis Sring : is_ring S.
@@ -93,21 +233,23 @@ Proof.
     set (ie := array_extent Ir Ic isr isc) in *.
     destruct (array_center pe) as [pcr pcc]. destruct (array_center ie) as [icr icc].
     cbn [fst snd] in Hra, Hcb.
+    destruct (dft2_shape S sq a ar ac Ir Ic (zq (pcr - icr) + (fst sh - zq fr))%Qc
+                (zq (pcc - icc) + (snd sh - zq fc))%Qc (offr f) (offc f) true) as [E1 E2].
+    pose proof (dft2_defining_sum S Sring Skernel sq a ar ac Ir Ic (zq (pcr - icr) + (fst sh - zq fr))%Qc
+                (zq (pcc - icc) + (snd sh - zq fc))%Qc (offr f) (offc f) true) as Hds.
+    set (D := dft2 sq a ar ac Ir Ic (zq (pcr - icr) + (fst sh - zq fr))%Qc
+                (zq (pcc - icc) + (snd sh - zq fc))%Qc (offr f) (offc f) true) in *.
+    clearbody D.
     eexists; split; [reflexivity|]. split.
-    + intros g Hg. injection Hg as <-. eexists; split; [reflexivity|].
-      destruct (dft2_shape S sq a ar ac Ir Ic (zq (pcr - icr) + (fst sh - zq fr))%Qc
-                  (zq (pcc - icc) + (snd sh - zq fc))%Qc (offr f) (offc f) true) as [E1 E2].
-      rewrite E1, E2. split; assumption.
+    + intros g Hg. injection Hg as <-. exists D. cbn [fd]. repeat split; lia.
     + intros u v. cbn [embed_opt]. rewrite embed_D2. unfold embedA.
-      destruct (dft2_shape S sq a ar ac Ir Ic (zq (pcr - icr) + (fst sh - zq fr))%Qc
-                  (zq (pcc - icc) + (snd sh - zq fc))%Qc (offr f) (offc f) true) as [E1 E2].
       rewrite E1, E2.
       rewrite <- intersection_extent_is_set_intersection, Hie.
       assert (Hmem : inE (r1, r2, c1, c2) u v = inr Ir (u - isr + Ir / 2) && inr Ic (v - isc + Ic / 2)).
       { rewrite <- Hae. apply array_extent_mem. }
       rewrite Hmem.
       destruct (inr Ir (u - isr + Ir / 2) && inr Ic (v - isc + Ic / 2)) eqn:Ein; [|reflexivity].
-      rewrite (dft2_defining_sum S Sring Skernel) by (unfold inr in Ein; lia).
+      rewrite Hds by (unfold inr in Ein; lia).
       assert (Hr1 : - (Ir / 2) + isr = r1) by (unfold ie, array_extent in Hae; congruence).
       assert (Hc1 : - (Ic / 2) + isc = c1) by (unfold ie, array_extent in Hae; congruence).
       f_equal. f_equal.
@@ -122,5 +264,157 @@ Proof.
     destruct (inE oe u v) eqn:E1; [|reflexivity].
     destruct (inE (array_extent Pro Pco fr fc) u v) eqn:E2; [|reflexivity].
     rewrite (common_point_intersect _ _ _ _ E1 E2) in Ei. discriminate.
+Qed.
+
+(* ------------------------------------------------------------------ Wavefront.field *)
+Lemma render_from (fs : list (field S)) : forall (o0 : arr S), 0 < nr o0 -> 0 < nc o0 ->
+  (forall g, In g fs -> sized g) ->
+  exists o, fold_left (fun acc f => rbind acc (fun o => rbind (insert (fun x => x) f o k1) (fun o' => Ok (force o'))))
+                      fs (Ok o0) = Ok o /\ nr o = nr o0 /\ nc o = nc o0 /\ forall i j, 0 <= i < nr o0 -> 0 <= j < nc o0 ->
+    get o i j = (get o0 i j + lsum S (map (fun g => embed g (i - nr o0 / 2) (j - nc o0 / 2)) fs))%K.
+Proof.
+  induction fs as [|f r IH]; intros o0 Hn Hm Hs.
+  - exists o0. cbn. repeat split; try reflexivity. intros. ring.
+  - destruct (Hs f (or_introl eq_refl)) as (d & Hd & Hd1 & Hd2).
+    destruct (insert_spec S Sring (fun x => x) f d o0 k1 Hd Hd1 Hd2 Hn Hm eq_refl) as (o1 & Ho1 & N1 & M1 & G1).
+    cbn [fold_left rbind]. rewrite Ho1. cbn [rbind].
+    destruct (IH (force o1)) as (o & Ho & N & M & G).
+    + rewrite force_nr. lia. + rewrite force_nc. lia. + intros g Hg. apply Hs. now right.
+    + exists o. split; [exact Ho|]. rewrite force_nr, force_nc in *. split; [lia|]. split; [lia|].
+      intros i j Hi Hj. rewrite N1, M1 in G. rewrite G by assumption.
+      rewrite force_get by lia. rewrite G1 by assumption. cbn [map lsum fold_right]. unfold lsum. ring.
+Qed.
+
+Lemma render_spec (fs : list (field S)) n m : 0 < n -> 0 < m -> (forall g, In g fs -> sized g) ->
+  exists o, render fs n m = Ok o /\ nr o = n /\ nc o = m /\ forall i j, 0 <= i < n -> 0 <= j < m ->
+    get o i j = lsum S (map (fun g => embed g (i - n / 2) (j - m / 2)) fs).
+Proof.
+  intros Hn Hm Hs. destruct (render_from fs (azeros n m) Hn Hm Hs) as (o & Ho & N & M & G).
+  exists o. split; [exact Ho|]. cbn [azeros nr nc] in *. repeat split; try assumption.
+  intros i j Hi Hj. rewrite G by assumption. unfold azeros. cbn [get]. ring.
+Qed.
+
+(* ------------------------------------------------------------------ the loop over the fields *)
+Lemma lsum_cons (x : S) l : lsum S (x :: l) = (x + lsum S l)%K.
+Proof. reflexivity. Qed.
+Lemma lsum_map_if {A} (c : bool) (t : A -> S) l :
+  lsum S (map (fun f => if c then t f else k0) l) = if c then lsum S (map t l) else k0.
+Proof. induction l as [|x l IH]; cbn [map]; [destruct c; reflexivity|].
+  rewrite !lsum_cons, IH. destruct c; [reflexivity|ring]. Qed.
+Lemma lsum_map_scale {A} (c : S) (t : A -> S) l :
+  lsum S (map (fun f => (t f * c)%K) l) = (lsum S (map t l) * c)%K.
+Proof. induction l as [|x l IH]; cbn [map]; [unfold lsum; cbn; ring|].
+  rewrite !lsum_cons, IH. ring. Qed.
+Lemma lsum_map_ext {A} (t1 t2 : A -> S) l : (forall x, In x l -> t1 x = t2 x) ->
+  lsum S (map t1 l) = lsum S (map t2 l).
+Proof. induction l as [|x l IH]; intros H; cbn [map]; [reflexivity|].
+  rewrite !lsum_cons, IH, (H x) by (intros; try apply H; cbn; auto). reflexivity. Qed.
+
+Lemma prop_fields_spec shift_of oe Pro Pco ar ac (fs : list (field S)) :
+  evalid oe -> 0 < Pro -> 0 < Pco -> (forall f, In f fs -> exists a, fd f = D2 a) ->
+  exists l, prop_fields sq shift_of oe Pro Pco (Some (ar, ac)) fs = Ok l /\
+    (forall g, In g l -> sized g) /\
+    (forall u v, lsum S (map (fun g => embed g u v) l)
+                 = lsum S (map (fun f => chip oe Pro Pco ar ac (shift_of f) f u v) fs)).
+Proof.
+  intros Hv H1 H2. induction fs as [|f r IH]; intros Hd.
+  - exists []. cbn. repeat split; auto. intros g [].
+  - destruct (Hd f (or_introl eq_refl)) as [a Ha].
+    destruct (prop_field_spec oe Pro Pco ar ac (shift_of f) f a Hv H1 H2 Ha) as (o & Ho & So & Eo).
+    destruct IH as (l & Hl & Sl & El). { intros; apply Hd; now right. }
+    cbn [prop_fields]. rewrite Ho. cbn [rbind]. rewrite Hl. cbn [rbind].
+    eexists; split; [reflexivity|]. destruct o as [g|].
+    + split.
+      * intros x [<-|Hx]; [now apply So|now apply Sl].
+      * intros u v. cbn [map]. rewrite !lsum_cons, El, <- Eo. reflexivity.
+    + split; [exact Sl|]. intros u v. cbn [map]. rewrite lsum_cons, El, <- Eo. cbn [embed_opt]. ring.
+Qed.
+
+(* ------------------------------------------------------------------ propagate_dft, any per-field shift *)
+Theorem propagate_dft_chips shift_of (w : wavefront S) dur duc shape pshape os mask dxr dxc Sr Sc Pr Pc b :
+  wptype w <> PtNone -> wps w = Some (dxr, dxc) ->
+  (forall f, In f (wdata w) -> exists a, fd f = D2 a) ->
+  match shape with None => wshape w | Some s => s end = (Sr, Sc) ->
+  match pshape with None => (Sr, Sc) | Some p => p end = (Pr, Pc) ->
+  0 < Sr -> 0 < Sc -> 0 < Pr -> 0 < Pc -> 1 <= os ->
+  (forall m, mask = Some m -> mnr m = Sr * os /\ mnc m = Sc * os) ->
+  mask_bbox mask (Sr * os) (Sc * os) = Ok b ->
+  let ar := dft_alpha1 dxr dur (wwl w) (wfocal w) os in
+  let ac := dft_alpha1 dxc duc (wwl w) (wfocal w) os in
+  exists w' o, propagate_dft sq shift_of w dur duc shape pshape os mask = Ok w' /\
+    wshape w' = (Sr * os, Sc * os) /\
+    wfield w' = Ok o /\ nr o = Sr * os /\ nc o = Sc * os /\
+    (forall i j, 0 <= i < Sr * os -> 0 <= j < Sc * os ->
+      let u := i - (Sr * os) / 2 in let v := j - (Sc * os) / 2 in
+      get o i j = lsum S (map (fun f =>
+        if inE b i j && inE (array_extent (Pr * os) (Pc * os) (qfix (fst (shift_of f))) (qfix (snd (shift_of f)))) u v
+        then match fd f with
+             | D2 a => (fourier_sum a ar ac (offr f) (offc f) (zq u - fst (shift_of f))%Qc (zq v - snd (shift_of f))%Qc
+                        * unitary_scale sq true ar ac)%K
+             | D0 _ => k0
+             end
+        else k0) (wdata w))).
+Proof.
+  intros Hpt Hps Hd Hshape Hpshape HSr HSc HPr HPc Hos Hm Hb ar ac.
+  assert (HRo : 0 < Sr * os) by nia. assert (HCo : 0 < Sc * os) by nia.
+  assert (HPro : 0 < Pr * os) by nia. assert (HPco : 0 < Pc * os) by nia.
+  destruct (out_extent_spec (Sr * os) (Sc * os) mask b HRo HCo Hm Hb) as (oe & Hoe & Hv & Hin).
+  destruct (prop_fields_spec shift_of oe (Pr * os) (Pc * os) ar ac (wdata w) Hv HPro HPco Hd) as (l & Hl & Sl & El).
+  destruct (render_spec l (Sr * os) (Sc * os) HRo HCo Sl) as (o & Ho & N & M & G).
+  unfold propagate_dft.
+  assert (Hfin : forall i j, 0 <= i < Sr * os -> 0 <= j < Sc * os ->
+      let u := i - (Sr * os) / 2 in let v := j - (Sc * os) / 2 in
+      get o i j = lsum S (map (fun f =>
+        if inE b i j && inE (array_extent (Pr * os) (Pc * os) (qfix (fst (shift_of f))) (qfix (snd (shift_of f)))) u v
+        then match fd f with
+             | D2 a => (fourier_sum a ar ac (offr f) (offc f) (zq u - fst (shift_of f))%Qc (zq v - snd (shift_of f))%Qc
+                        * unitary_scale sq true ar ac)%K
+             | D0 _ => k0
+             end
+        else k0) (wdata w))).
+  { intros i j Hi Hj u v. rewrite G by assumption. rewrite El. apply lsum_map_ext. intros f _.
+    unfold chip. subst u v. rewrite Hin. reflexivity. }
+  destruct (wptype w) eqn:Ept; [congruence| |]; cbn [propagate_ptype rbind];
+    rewrite Hshape, Hpshape, Hoe; cbn [rbind]; rewrite Hps; fold ar ac; rewrite Hl; cbn [rbind];
+    (eexists; exists o; split; [reflexivity|]); unfold wfield; cbn [wdata wshape fst snd];
+    (split; [reflexivity|]); (split; [exact Ho|]); (split; [exact N|]); (split; [exact M|]); exact Hfin.
+Qed.
+
+(* untilted wavefronts: every chip is the centred prop_shape*oversample box and the samples are
+   the unitary Fraunhofer sums of the fields at the sample's own coordinate *)
+Theorem propagate_dft_samples shift_of (w : wavefront S) dur duc shape pshape os mask dxr dxc Sr Sc Pr Pc b :
+  wptype w <> PtNone -> wps w = Some (dxr, dxc) ->
+  (forall f, In f (wdata w) -> shift_of f = (0%Qc, 0%Qc) /\ exists a, fd f = D2 a) ->
+  match shape with None => wshape w | Some s => s end = (Sr, Sc) ->
+  match pshape with None => (Sr, Sc) | Some p => p end = (Pr, Pc) ->
+  0 < Sr -> 0 < Sc -> 0 < Pr -> 0 < Pc -> 1 <= os ->
+  (forall m, mask = Some m -> mnr m = Sr * os /\ mnc m = Sc * os) ->
+  mask_bbox mask (Sr * os) (Sc * os) = Ok b ->
+  let ar := dft_alpha1 dxr dur (wwl w) (wfocal w) os in
+  let ac := dft_alpha1 dxc duc (wwl w) (wfocal w) os in
+  exists w' o, propagate_dft sq shift_of w dur duc shape pshape os mask = Ok w' /\
+    wshape w' = (Sr * os, Sc * os) /\
+    wfield w' = Ok o /\ nr o = Sr * os /\ nc o = Sc * os /\
+    (forall i j, 0 <= i < Sr * os -> 0 <= j < Sc * os ->
+      let u := i - (Sr * os) / 2 in let v := j - (Sc * os) / 2 in
+      get o i j =
+        if inE b i j && inE (array_extent (Pr * os) (Pc * os) 0 0) u v
+        then (lsum S (map (fun f => match fd f with
+                                    | D2 a => fourier_sum a ar ac (offr f) (offc f) (zq u) (zq v)
+                                    | D0 _ => k0
+                                    end) (wdata w))
+              * sq (qabs (ar * ac)%Qc))%K
+        else k0).
+Proof.
+  intros Hpt Hps Hd Hshape Hpshape HSr HSc HPr HPc Hos Hm Hb ar ac.
+  destruct (propagate_dft_chips shift_of w dur duc shape pshape os mask dxr dxc Sr Sc Pr Pc b Hpt Hps
+              (fun f Hf => proj2 (Hd f Hf)) Hshape Hpshape HSr HSc HPr HPc Hos Hm Hb)
+    as (w' & o & Hw & Hs & Ho & N & M & G).
+  exists w', o. repeat (split; [assumption|]).
+  intros i j Hi Hj u v. rewrite (G i j Hi Hj). fold ar ac u v.
+  rewrite <- lsum_map_scale, <- lsum_map_if. apply lsum_map_ext. intros f Hf.
+  destruct (Hd f Hf) as [E [a Ha]]. rewrite E. cbn [fst snd]. rewrite qfix_0, Ha.
+  unfold unitary_scale. replace (zq u - 0)%Qc with (zq u) by ring. replace (zq v - 0)%Qc with (zq v) by ring.
+  reflexivity.
 Qed.
 End PropagateP.
